@@ -157,6 +157,12 @@ def check(run: Run) -> None:
                     continue
                 exc = n.exc.func if isinstance(n.exc, ast.Call) else n.exc
                 nm = ast.unparse(exc)
+                if isinstance(n.exc, ast.Call) and isinstance(exc, ast.Name) and isinstance(m.lookup_target(m.resolve_dotted(fi.module, fi, exc.id)), FuncInfo):
+                    # an exception built by a package helper: the type is what the helper constructs
+                    fa = fa or ctx.analysis(fi)
+                    et = strip_sites(fa.term_of(n.exc)) if fa.cfg.has_node(n.exc) else ("top", "?")
+                    if et[0] == "app" and et[1][0] == "global" and et[1][1].startswith("builtins."):
+                        nm = et[1][1].split(".")[-1]
                 wl = RAISE_WHITELIST.get((fi.qual, nm))
                 run.check(nm == "ValueError" or wl is not None, "C10.R4", fi, n, f"raise {nm}" + (f" (enumerated: {wl})" if wl else " is a designed ValueError"), f"{fi.qual.split(':')[1]} raises {nm} on the operators' lambda pipeline: refusals must be ValueError", "ValueError")
             elif isinstance(n, ast.Assert):
@@ -170,6 +176,11 @@ def check(run: Run) -> None:
                     internal = st[0] in ("gvisit", "visit", "new", "app", "index", "phi", "attr", "upd", "ifexp")
                     if internal:
                         run.ok("C10.R4", fi, f"assert {ast.unparse(t)[:60]}: node-kind invariant of an internal value")
+                        continue
+                    # already established on every path to the assert (e.g. by the guard at the helper's only call site): cannot fail
+                    cls_names = {Facts(fa, n)._cls_name(c_) for c_ in (t.args[1].elts if isinstance(t.args[1], ast.Tuple) else [t.args[1]])}
+                    if Facts(fa, n).isinstance_of(st, cls_names):
+                        run.ok("C10.R4", fi, f"assert {ast.unparse(t)[:60]}: already known where it is made")
                         continue
                 wl = ASSERT_WHITELIST.get(fi.qual)
                 run.check(wl is not None, "C10.R4", fi, n, f"assert {ast.unparse(t)[:50]} (enumerated: {wl})", f"assert {ast.unparse(t)[:80]} on the operators' lambda pipeline is not an enumerated internal invariant: a valid expression may end in AssertionError instead of a designed ValueError")
